@@ -10,17 +10,36 @@
    that asked for the wrong key, message or signature slice disagrees with the
    implementation on a valid update. *)
 From Coq Require Import List ZArith NArith Bool Arith.
+From Coq Require Export Uint63.
 Require Import Mixin.Base.Res Mixin.Model.Custodian.
 Import ListNotations.
 Local Open Scope nat_scope.
 
-Inductive vq := VQ (key : list N) (moff mlen soff : nat) (ok : bool).
+(* Byte strings travel packed, seven bytes per 63-bit machine integer (least
+   significant byte first), because a literal list of thousands of [N]s is slow
+   to elaborate; [U len words] is the byte string of length [len]. *)
+Definition bitN (b m : int) (v : N) : N := if ((b land m) =? 0)%uint63 then 0%N else v.
+Definition byte_at (w k : int) : N :=
+  let b := (w >> k)%uint63 in
+  (bitN b 1 1 + bitN b 2 2 + bitN b 4 4 + bitN b 8 8
+   + bitN b 16 16 + bitN b 32 32 + bitN b 64 64 + bitN b 128 128)%N.
+Definition word_bytes (w : int) : list N :=
+  [byte_at w 0; byte_at w 8; byte_at w 16; byte_at w 24; byte_at w 32; byte_at w 40; byte_at w 48]%uint63.
+Definition U (len : N) (ws : list int) : list N := firstn (N.to_nat len) (flat_map word_bytes ws).
+
+Inductive vq := VQ (key : list N) (moff mlen soff : N) (ok : bool).
 
 Definition verify_of (extra : list N) (tbl : list vq) (k m s : list N) : bool :=
   existsb (fun q => match q with
      | VQ key moff mlen soff ok =>
-         ok && bytes_eqb k key && bytes_eqb s (slice soff (soff + 64) extra)
-            && bytes_eqb m (slice moff (moff + mlen) extra)
+         (* nested [if]s: evaluation stops at the first difference *)
+         if ok then
+           if bytes_eqb k key then
+             if bytes_eqb s (slice (N.to_nat soff) (N.to_nat soff + 64) extra)
+             then bytes_eqb m (slice (N.to_nat moff) (N.to_nat moff + N.to_nat mlen) extra)
+             else false
+           else false
+         else false
      end) tbl.
 
 (* previous custodian state as the store returned it *)
